@@ -241,6 +241,10 @@ func c10(e *env, chunkedL1 bool) {
 				q = stack.Req{Kind: "get", Items: []stack.GItem{{Key: []byte(key), Opaque: 7}}}
 			case "mget":
 				q = stack.Req{Kind: "get", Items: []stack.GItem{{Key: []byte("a"), Opaque: 1, Quiet: true}, {Key: []byte("bb"), Opaque: 2, Quiet: true}, {Key: []byte("a"), Opaque: 3}}}
+			case "gete":
+				q = stack.Req{Kind: "gete", Items: []stack.GItem{{Key: []byte(key), Opaque: 7}}}
+			case "mgete":
+				q = stack.Req{Kind: "gete", Items: []stack.GItem{{Key: []byte("a"), Opaque: 1, Quiet: true}, {Key: []byte("bb"), Opaque: 2, Quiet: true}, {Key: []byte("a"), Opaque: 3}}}
 			case "mgetn":
 				q = stack.Req{Kind: "get", Items: []stack.GItem{{Key: []byte("a"), Opaque: 1, Quiet: true}, {Key: []byte("bb"), Opaque: 2, Quiet: true}}, NoopEnd: true, NoopOpq: 9}
 			}
@@ -272,7 +276,11 @@ func c10(e *env, chunkedL1 bool) {
 		}
 		for _, cf := range cfgs {
 			for si, su := range setups {
-				for _, kd := range kinds {
+				kds := kinds
+				if cf.deploy == "l1only" && cf.proto == "bin" && cf.l1 == "std" {
+					kds = append(append([]string{}, kinds...), "gete", "mgete") // the GetE extension: one-tier deployments only
+				}
+				for _, kd := range kds {
 					if cf.proto == "text" && (kd == "gat" || kd == "mget" || kd == "mgetn") {
 						continue
 					}
